@@ -82,6 +82,7 @@ def op_gen(case: dict) -> dict:
     grammar, constraints = load(case["spec"], None)
     gj, regexes = gio.grammar_to_json(grammar)
     binary = is_binary(grammar)
+    cap0 = int(grammar.get_max_repetition())
     fuzzed = []
     for _ in range(case.get("n_fuzz", 6)):
         try:
@@ -95,7 +96,8 @@ def op_gen(case: dict) -> dict:
         from fandango import Fandango
         try:
             fan = Fandango._with_parsed(grammar, constraints, start_symbol="<start>")
-            sols = fan.fuzz(desired_solutions=3, max_generations=15, population_size=10)
+            sols = fan.fuzz(desired_solutions=3, max_generations=int(case.get("max_generations", 15)),
+                            population_size=int(case.get("population_size", 10)))
             for t in sols[:3]:
                 fuzzed.append({"tree": gio.tree_to_json(t), "src": "Fandango.fuzz"})
         except gio.NotModelled:
@@ -103,7 +105,10 @@ def op_gen(case: dict) -> dict:
         except Exception as e:  # noqa
             fuzzed.append({"error": f"{type(e).__name__}: {e}"[:200], "src": "Fandango.fuzz"})
     pats = [[type(p).__name__, p.decode("latin-1") if isinstance(p, bytes) else p] for p in regexes.patterns]
-    return {"grammar": gj, "inst": instances(regexes), "binary": binary, "fuzzed": fuzzed, "patterns": pats}
+    # cap0: the repetition cap the grammar (and the parser compiled for it) started with; the evolution above
+    # may have raised the cap of `grammar` (adaptive tuner -> Grammar.set_max_repetition)
+    return {"grammar": gj, "inst": instances(regexes), "binary": binary, "fuzzed": fuzzed, "patterns": pats,
+            "cap": cap0, "cap_after": int(grammar.get_max_repetition())}
 
 
 def greedy_table(patterns: list, binary: bool, word_units: list[int], leaves: list, tags: list) -> list:
@@ -136,6 +141,52 @@ def greedy_table(patterns: list, binary: bool, word_units: list[int], leaves: li
     return out
 
 
+import contextlib
+
+
+@contextlib.contextmanager
+def nullable_completion_repair():
+    """The proposed repair of finding C05/nullable-completion-missed (/var/tmp/fixes/C05-nullable-completion-missed),
+    monkeypatched in-process: when `predict` meets a symbol that was already completed in this column with an empty
+    derivation, the finished state is completed again so that the state that arrived later is advanced.
+    Used ONLY to classify a rejected word: rejected without, accepted with = rejected because of exactly that."""
+    from fandango.language.grammar.parser.iterative_parser import IterativeParser
+    orig = IterativeParser.predict
+
+    def predict(self, state, table, k, hookin_parent=None):
+        symbol = state.dot
+        orig(self, state, table, k, hookin_parent)
+        if symbol in self._context_rules:
+            return
+        for done in [s for s in table[k].states if s.position == k and s.nonterminal == symbol and s.finished()]:
+            self.complete(done, table, k)
+
+    IterativeParser.predict = predict
+    try:
+        yield
+    finally:
+        IterativeParser.predict = orig
+
+
+def accepted_with_repair(spec: str, word, binary: bool, max_trees: int) -> bool:
+    """parse `word` with a FRESH grammar (the parse cache of the first attempt holds the empty forest) under
+    `nullable_completion_repair`"""
+    from fandango import Fandango
+    from fandango.language.parse.parse import parse
+    grammar, constraints = parse(spec, None, use_cache=False, use_stdlib=False)
+    fan = Fandango._with_parsed(grammar, constraints, start_symbol="<start>")
+    n = 0
+    with nullable_completion_repair():
+        for parsed in fan.parse(word):
+            n += 1
+            s1 = serialise(parsed, binary)
+            if s1 == word and type(s1) is type(word):
+                return True
+            if n >= max_trees:
+                break
+    return False
+
+
 def op_roundtrip(case: dict) -> dict:
     from fandango import Fandango
     from fandango.cli.utils import validate
@@ -147,10 +198,11 @@ def op_roundtrip(case: dict) -> dict:
     out = []
     import signal
     item_s = case.get("item_s", 8)
+    other: dict[str, Any] = {}      # a parsed tree of an earlier item (negative control for validate())
     for it in case["items"]:
         signal.alarm(item_s)
         try:
-            out.append(roundtrip_one(case, it, grammar, fan, binary, max_trees, validate, FandangoError))
+            out.append(roundtrip_one(case, it, grammar, fan, binary, max_trees, validate, FandangoError, other))
         except Exception as e:  # noqa
             if type(e).__name__ != "_Alarm":
                 raise
@@ -161,7 +213,7 @@ def op_roundtrip(case: dict) -> dict:
     return {"items": out}
 
 
-def roundtrip_one(case, it, grammar, fan, binary, max_trees, validate, FandangoError) -> dict:
+def roundtrip_one(case, it, grammar, fan, binary, max_trees, validate, FandangoError, other) -> dict:
     if True:
         rec: dict[str, Any] = {}
         try:
@@ -190,6 +242,15 @@ def roundtrip_one(case, it, grammar, fan, binary, max_trees, validate, FandangoE
                         first_ok = True
                     except FandangoError as e:
                         first_ok, first_err = False, str(e)[:120]
+                    # negative control: the parsed tree of another word must NOT validate against this tree
+                    if "parsed" in other and other["word"] != word:
+                        try:
+                            validate(tree, other["parsed"], filename="<verif>")
+                            rec["validate_accepts_mismatch"] = units(other["word"])
+                        except FandangoError:
+                            rec["validate_accepts_mismatch"] = None
+                    if s1 == word:
+                        other["parsed"], other["word"] = parsed, word
                 if serialise(parsed, binary) == word and type(serialise(parsed, binary)) is type(word):
                     found = True
                     break
@@ -200,6 +261,19 @@ def roundtrip_one(case, it, grammar, fan, binary, max_trees, validate, FandangoE
                 raise
             rec["raised"] = f"{type(e).__name__}: {e}"[:160]
         rec.update({"found": found, "n_trees": n, "validate_first": first_ok, "validate_err": first_err})
+        if not found and "raised" not in rec:
+            # classification only; under a time limit of its own, so that a diverging repair attempt cannot turn
+            # the rejection that was just observed into a mere "timeout"
+            import signal
+            signal.alarm(int(case.get("item_s", 8)))
+            try:
+                rec["found_with_nullable_repair"] = accepted_with_repair(case["spec"], word, binary, max_trees)
+            except Exception as e:  # noqa
+                rec["found_with_nullable_repair"] = False
+                if type(e).__name__ == "_Alarm":
+                    rec["repair_timeout"] = True
+            finally:
+                signal.alarm(0)
         return rec
 
 
